@@ -71,11 +71,12 @@ func TestValidTokenPerKeyType(t *testing.T) {
 func TestReencodeKeepsDecodedBytes(t *testing.T) {
 	for _, seg := range []string{"eyJhbGciOiJFUzI1NiJ9", "eyJhIjoiYiJ9eA", "_-8", "QQ", "QUI"} {
 		orig, _ := lenientB64(seg)
-		for _, op := range []string{"pad", "std", "trailbits"} {
-			if ns, ok := reencode(seg, op); ok {
+		for _, op := range []EncOp{{Op: "pad"}, {Op: "std"}, {Op: "trailbits"}, {Op: "ws-in", Ch: "lf", Pos: 1}, {Op: "ws-in", Ch: "crlf", Pos: 7},
+			{Op: "ws-before", Ch: "cr"}, {Op: "ws-after", Ch: "lf"}} {
+			if ns, _, ok := reencode(seg, op); ok {
 				got, ok2 := lenientB64(ns)
 				if !ok2 || string(got) != string(orig) || ns == seg {
-					t.Fatalf("%s %s -> %s: decoded bytes differ or text unchanged", op, seg, ns)
+					t.Fatalf("%v %s -> %q: decoded bytes differ or text unchanged", op, seg, ns)
 				}
 			}
 		}
